@@ -55,7 +55,7 @@ func loadBaseline(prop string) map[string]bool {
 
 func explicitKind(k string) bool {
 	switch k {
-	case "ensures", "exit", "inv-entry", "inv-preserved", "call-pre", "assert", "decreases":
+	case "ensures", "exit", "inv-entry", "inv-preserved", "call-pre", "assert", "decreases", "step":
 		return true
 	}
 	return false
